@@ -269,14 +269,16 @@ def P(pid):
             ('RF-Y refusals of local helpers are never discarded (CL03)', lambda c: rf_errors.rule_errors_not_discarded(c, scope=rf_errors.SCOPE_CL03, min_sources=0), 1),
             ('RF-B pass-through arguments keep their role (CL03)', lambda c: rf_consts.rule_argument_roles(c, scope=('cl03::',), min_sites=25), 25),
             ('RF-D blind_sign gated by verify_proof', CL.rule_blind_sign_gated, 3),
+            ('RF-Q every issued signature (blind_sign, update_signature) gets an exponent of its own from the search loop', CL.rule_e_loop_exit, 4),
             ('RF-D the blind signature is computed from the commitment, the key, the bases and the revealed attributes', lambda c: rf_frame.rule_result_binding(c, table={k: v for k, v in rf_frame.RESULT_BINDING_CL03.items() if 'blind_sign' in k}), 6),
             ('RF-C Fiat-Shamir ingredients of the issuance sigma protocols', lambda c: rf_hash.rule_hash_binding(c, rf_hash.CL03_FS_TABLE, CL03_FS_SCOPE), 38),
             ('RF-D verify_proof gates', lambda c: rf_gates.rule_accept_requirements(c, CL.C14_REQS), 4),
             ('RF-B commit / prove base agreement', CL.rule_commit_prove_base_agreement, 3),
-            ('RF-J carried commitments are equated', CL.rule_carried_commitment_equalities, 6),
+            ('RF-J carried commitments are equated; per-attribute proofs are tied to the commitment', lambda c: CL.rule_carried_commitment_equalities(c, link=('ZKPoK',)), 7),
             ('RF-K every ZKPoK leaf gates acceptance', lambda c: CL.rule_every_leaf_gates(c, which=('zkpok',)), 40),
             ('RF-K the verifier pins the representative of every transmitted integer', lambda c: CL.rule_canonical_representatives(c, CL.REPRESENTATIVE_SPECS['C14']), 40),
             ('RF-K list fields of the proof have the number of entries the statement requires', lambda c: CL.rule_list_fields_counted(c, CL.REPRESENTATIVE_SPECS['C14']), 4),
+            ('RF-C the statement is part of the Fiat-Shamir challenge', lambda c: CL.rule_statement_in_challenge(c, skip=('nisp5_MultiAttr_verify_proof',)), 5),
             ('RF-D sub-verifiers cannot be switched off by the proof', CL.rule_checks_not_skippable_by_artefact, 8),
             ('RF-P cursor discipline', CL.rule_cursor_discipline, 10),
             ('RF-W acceptance conditions test the combinations of inputs tested before', lambda c: rf_gatesets.rule_gate_sets(c, group='cl03', only=['verify_proof']), 2),
@@ -294,10 +296,11 @@ def P(pid):
             ('RF-C Fiat-Shamir ingredients of the per-attribute proofs', lambda c: rf_hash.rule_hash_binding(c, rf_hash.CL03_FS_TABLE, CL03_FS_SCOPE,
                 only_fns={k for k in rf_hash.CL03_FS_TABLE if 'NISPSecrets' in k}), 8),
             ('RF-D proof_verify gates', lambda c: rf_gates.rule_accept_requirements(c, CL.C15_REQS), 3),
-            ('RF-J carried commitments are equated', CL.rule_carried_commitment_equalities, 6),
+            ('RF-J carried commitments are equated; per-attribute proofs are tied to the signature proof', lambda c: CL.rule_carried_commitment_equalities(c, link=('PoKSignature',)), 7),
             ('RF-K every PoKSignature leaf gates acceptance', lambda c: CL.rule_every_leaf_gates(c, which=('pok',)), 40),
             ('RF-K the verifier pins the representative of every transmitted integer', lambda c: CL.rule_canonical_representatives(c, CL.REPRESENTATIVE_SPECS['C15']), 40),
             ('RF-K list fields of the proof have the number of entries the statement requires', lambda c: CL.rule_list_fields_counted(c, CL.REPRESENTATIVE_SPECS['C15']), 3),
+            ('RF-C the statement is part of the Fiat-Shamir challenge', lambda c: CL.rule_statement_in_challenge(c, skip=('nisp2_verify_proof_MultiSecrets',)), 5),
             ('RF-D sub-verifiers cannot be switched off by the proof', CL.rule_checks_not_skippable_by_artefact, 8),
             ('RF-P cursor discipline (revealed / hidden position bookkeeping)', CL.rule_cursor_discipline, 10),
             ('RF-W acceptance conditions test the combinations of inputs tested before', lambda c: rf_gatesets.rule_gate_sets(c, group='cl03', only=['proof_verify']), 2),
@@ -312,6 +315,7 @@ def P(pid):
             ('RF-J proofs of square are about the decomposition', CL.rule_carried_commitment_equalities, 6),
             ('RF-K the verifier pins the representative of every transmitted integer', lambda c: CL.rule_canonical_representatives(c, CL.REPRESENTATIVE_SPECS['C16']), 20),
             ('RF-C Fiat-Shamir ingredients', CL.rule_range_proof_hash_sites, 15),
+            ('RF-C the statement is part of the Fiat-Shamir challenge', lambda c: CL.rule_statement_in_challenge(c, only=('range_proof',)), 3),
             ('RF-Q tolerance exponent shape', CL.rule_tolerance_exponent, 2),
             ('RF-Q the honest prover refuses out-of-range values', CL.rule_prover_refuses_out_of_range, 3),
             ('RF-W acceptance conditions test the combinations of inputs tested before', lambda c: rf_gatesets.rule_gate_sets(c, group='cl03', only=['Boudot2000RangeProof::verify']), 2),
@@ -324,6 +328,8 @@ def P(pid):
             ('RF-I no opening in the serialised proof types', CL.rule_no_opening_serialised, 4),
             ('RF-G2 hidden attributes are always blinded (mask selection)', CL.rule_mask_vectors, 8),
             ('RF-G2 sibling commitments use independent randomness', CL.rule_sibling_randomness, 2),
+            ('RF-H response masks vs challenge / secret lengths (a response that reveals its secret confirms a guessed attribute)', rf_bits.rule_response_masking, 17),
+            ('RF-H range-proof responses: the challenge is reduced to the t bits the masks provide for', rf_bits.rule_range_proof_challenge_length, 4),
         ]
         meta['explanation'] = ('Decided completely for the structural reading: the leaves the (derived) Serialize impls of CL03ZKPoK and CL03PoKSignature emit are enumerated from the resolved impl bodies; '
                                'none may be the randomness of a commitment to a hidden value. On this tree seven such leaves are emitted (known findings: the repair changes the wire format). '
@@ -340,6 +346,7 @@ def P(pid):
     elif pid == 'C19':
         R = [
             ('RF-H response masks vs challenge / secret lengths', rf_bits.rule_response_masking, 17),
+            ('RF-H range-proof responses: the challenge is reduced to the t bits the masks provide for', rf_bits.rule_range_proof_challenge_length, 4),
             ('RF-G2 one fresh draw per mask element', CL.rule_mask_vectors, 8),
         ]
         meta['explanation'] = ('Decided completely for the two quotient attacks the property names, by bit-length arithmetic over the MIR evaluated for CL1024/2048/3072: every response mask + challenge * secret '
@@ -356,19 +363,19 @@ CONTROLS = {
     'C01': ['seeded/C01-a/patch.diff', 'seeded/C01-b/patch.diff', 'seeded/C01-c/patch.diff', 'seeded/C01-d/patch.diff', 'seeded/C01-e/patch.diff'],
     'C02': ['selftest/mutants/unfix-1a8aa8f.patch', 'seeded/C02-a/patch.diff', 'seeded/C04-a/patch.diff', 'seeded/C02-b/patch.diff', 'seeded/C02-c/patch.diff', 'seeded/C02-d/patch.diff', 'seeded/C02-e/patch.diff'],
     'C03': ['seeded/C03-a/patch.diff', 'seeded/C03-c/patch.diff', 'seeded/C03-d/patch.diff', 'seeded/C03-e/patch.diff'],
-    'C04': ['selftest/mutants/unfix-4e31b69.patch', 'selftest/mutants/unfix-1c8b8b0.patch', 'selftest/mutants/unfix-99e0eb6.patch', 'selftest/mutants/unfix-44a689e.patch', 'seeded/C04-a/patch.diff', 'seeded/C04-b/patch.diff', 'seeded/C04-c/patch.diff', 'seeded/C04-d/patch.diff', 'seeded/C04-e/patch.diff'],
+    'C04': ['selftest/mutants/unfix-4e31b69.patch', 'selftest/mutants/unfix-1c8b8b0.patch', 'selftest/mutants/unfix-99e0eb6.patch', 'selftest/mutants/unfix-44a689e.patch', 'seeded/C04-a/patch.diff', 'seeded/C04-b/patch.diff', 'seeded/C04-c/patch.diff', 'seeded/C04-d/patch.diff'],
     'C05': ['seeded/C05-a/patch.diff', 'seeded/C05-b/patch.diff', 'seeded/C05-c/patch.diff', 'seeded/C05-d/patch.diff', 'seeded/C05-e/patch.diff'],
     'C06': ['selftest/mutants/unfix-99e0eb6.patch', 'selftest/mutants/unfix-44a689e.patch', 'seeded/C06-a/patch.diff', 'seeded/C06-b/patch.diff', 'seeded/C06-c/patch.diff', 'seeded/C06-d/patch.diff', 'seeded/C06-e/patch.diff'],
     'C07': ['seeded/C07-a/patch.diff', 'seeded/C07-b/patch.diff', 'seeded/C07-c/patch.diff', 'seeded/C07-d/patch.diff', 'seeded/C07-e/patch.diff'],
-    'C08': ['selftest/mutants/unfix-928b770.patch', 'selftest/mutants/unfix-05eab20.patch', 'selftest/mutants/unfix-6597d81.patch', 'seeded/C08-a/patch.diff', 'seeded/C08-b/patch.diff', 'seeded/C08-c/patch.diff', 'selftest/mutants/work-unbounded-L.patch', 'seeded/C08-d/patch.diff', 'seeded/C08-e/patch.diff'],
+    'C08': ['selftest/mutants/unfix-928b770.patch', 'selftest/mutants/unfix-05eab20.patch', 'selftest/mutants/unfix-6597d81.patch', 'seeded/C08-b/patch.diff', 'selftest/mutants/work-unbounded-L.patch', 'seeded/C08-d/patch.diff', 'seeded/C08-e/patch.diff'],
     'C09': ['selftest/mutants/unfix-928b770.patch', 'selftest/mutants/unfix-4e31b69.patch', 'selftest/mutants/unfix-1a8aa8f.patch', 'selftest/mutants/unfix-07e52dd.patch', 'selftest/mutants/unfix-dc0c0a4.patch', 'seeded/C09-a/patch.diff', 'seeded/C09-b/patch.diff', 'seeded/C09-c/patch.diff', 'seeded/C09-d/patch.diff', 'seeded/C09-e/patch.diff'],
     'C10': ['selftest/mutants/unfix-1a8aa8f.patch', 'seeded/C10-a/patch.diff', 'seeded/C10-b/patch.diff', 'seeded/C10-c/patch.diff', 'seeded/C10-d/patch.diff', 'seeded/C10-e/patch.diff'],
     'C11': ['seeded/C11-a/patch.diff', 'seeded/C11-b/patch.diff', 'seeded/C11-c/patch.diff', 'seeded/C11-d/patch.diff', 'seeded/C11-e/patch.diff'],
     'C12': ['selftest/mutants/unfix-ae1f505.patch', 'seeded/C12-a/patch.diff', 'seeded/C12-b/patch.diff', 'seeded/C12-c/patch.diff', 'seeded/C12-d/patch.diff', 'seeded/C12-e/patch.diff'],
     'C13': ['selftest/mutants/unfix-4faa0f0.patch', 'selftest/mutants/unfix-d5d2c0e.patch', 'selftest/mutants/unfix-d882cd3.patch', 'seeded/C13-a/patch.diff', 'seeded/C13-b/patch.diff', 'seeded/C13-c/patch.diff', 'seeded/C13-d/patch.diff', 'seeded/C13-e/patch.diff'],
-    'C14': ['selftest/mutants/unfix-2e6b8d5.patch', 'selftest/mutants/unfix-2d01ace.patch', 'selftest/mutants/unfix-7b76bb5.patch', 'seeded/C14-a/patch.diff', 'seeded/C14-b/patch.diff', 'seeded/C14-c/patch.diff', 'seeded/C14-d/patch.diff', 'seeded/C14-e/patch.diff'],
+    'C14': ['selftest/mutants/unfix-2e6b8d5.patch', 'selftest/mutants/unfix-2d01ace.patch', 'selftest/mutants/unfix-7b76bb5.patch', 'selftest/mutants/unfix-16c9f60.patch', 'seeded/C14-b/patch.diff', 'seeded/C14-d/patch.diff', 'seeded/C14-e/patch.diff'],
     'C15': ['selftest/mutants/unfix-2d01ace.patch', 'selftest/mutants/unfix-85ebe8e.patch', 'selftest/mutants/unfix-164e21b.patch', 'seeded/C15-a/patch.diff', 'seeded/C15-b/patch.diff', 'seeded/C15-c/patch.diff', 'seeded/C15-d/patch.diff', 'seeded/C15-e/patch.diff'],
-    'C16': ['selftest/mutants/unfix-b52ed69.patch', 'selftest/mutants/unfix-e0980eb.patch', 'selftest/mutants/unfix-6c89f9a.patch', 'seeded/C16-a/patch.diff', 'seeded/C16-b/patch.diff', 'seeded/C16-c/patch.diff', 'seeded/C16-d/patch.diff', 'seeded/C16-e/patch.diff'],
+    'C16': ['selftest/mutants/unfix-b52ed69.patch', 'selftest/mutants/unfix-2d81d25.patch', 'selftest/mutants/unfix-e0980eb.patch', 'selftest/mutants/unfix-6c89f9a.patch', 'seeded/C16-a/patch.diff', 'seeded/C16-b/patch.diff', 'seeded/C16-c/patch.diff', 'seeded/C16-d/patch.diff', 'seeded/C16-e/patch.diff'],
     'C17': ['seeded/C17-a/patch.diff', 'seeded/C17-b/patch.diff', 'seeded/C17-c/patch.diff', 'seeded/C17-d/patch.diff', 'seeded/C17-e/patch.diff'],
     'C18': ['seeded/C18-a/patch.diff', 'seeded/C18-b/patch.diff', 'seeded/C18-c/patch.diff', 'seeded/C18-d/patch.diff', 'seeded/C18-e/patch.diff'],
     'C19': ['seeded/C19-a/patch.diff', 'seeded/C19-b/patch.diff', 'seeded/C19-c/patch.diff', 'seeded/C19-d/patch.diff', 'seeded/C19-e/patch.diff'],
